@@ -39,3 +39,18 @@ func VerifC12Fanout() (trees uint64, outboundDebits float64) {
 	}
 	return m.Histogram.GetSampleCount(), m.Histogram.GetSampleSum()
 }
+
+// VerifC12DNSSECOps lists the DNSSEC operations whose accepted (enforce) or
+// observed (shadow) totals every completed ledger publishes.
+var VerifC12DNSSECOps = []string{"signature_checks", "ds_digests", "nsec3_hashes"}
+
+// VerifC12DNSSECWork returns, per operation, the sum over all request-tree
+// ledgers published so far in this process under mode of the DNSSEC
+// operations they accounted. Live values.
+func VerifC12DNSSECWork(mode string) map[string]int64 {
+	out := make(map[string]int64, len(VerifC12DNSSECOps))
+	for _, op := range VerifC12DNSSECOps {
+		out[op] = dnssecWorkTotal.WithLabelValues(op, mode).Value()
+	}
+	return out
+}
